@@ -7,8 +7,9 @@ import Zeno.Gen.Pause
 Statements only. `G` = facts regenerated from pause.go and from the pause case of the four stage
 workers. The model is a transition system over fine-grained actions (Model/Pause.lean): any number
 `n` of subscribed workers, any number of `Pause` / `Resume` / stop invocations from any controllers
-in any order, interleaved arbitrarily with the internal steps (signalling, acknowledging,
-collecting, exiting). `Reachable G n s` = `s` is reachable from `n` subscribers by any such history.
+in any order, further workers subscribing at any moment (a stage worker subscribes from inside its own
+goroutine), interleaved arbitrarily with the internal steps (signalling, acknowledging, collecting,
+exiting). `Reachable G n s` = `s` is reachable from `n` initial subscribers by any such history.
 -/
 namespace Zeno.Props.C14
 open Zeno Zeno.Model.Pause
@@ -79,6 +80,34 @@ theorem c14_d4_counterexample :
     let F := { G with preprocessorAck := "bare" }
     let s := runActs F (S.init 1) [.pauseCall, .pauseSend 0, .takeToken 0, .stopCall]
     quiescent F s = true ∧ (s.sub 0).st = .acking := by
+  decide
+
+/-- **Late subscribers** (defect D27, repaired): a worker may subscribe at any moment at which no `Resume` is collecting
+(the two are serialised by the lock); when the pipeline is paused it is handed the pause signal at once, so
+`c14_pause_reaches_all` and `c14_no_deadlock` above cover it like every other worker. -/
+theorem c14_late_subscriber (n : Nat) (s : S) (hr : Reachable G n s) (hres : s.resumes = []) :
+    ∃ s', step G s .subscribe = some s' ∧ Reachable G n s' ∧ s'.n = s.n + 1 ∧ s'.live s.n = true ∧
+      (s.paused = true → busy s' s.n) := by
+  have hst : step G s .subscribe = some { s with n := s.n + 1, subs := fun j => if j = s.n then { st := .running, token := s.paused } else s.subs j } := by
+    simp [step, hres, ok_guarded facts_ok]
+    decide
+  refine ⟨_, hst, Reachable.step s _ .subscribe hr hst, rfl, ?_, ?_⟩
+  · simp [S.live, S.sub, Sub.live]
+  · intro hp
+    right; left
+    simp [S.sub, hp]
+
+/-- without the repair (`Subscribe` only registers the channels) the newcomer of a paused pipeline would never be signalled, and the
+next `Resume` would wait for it for ever: the model simply has no `subscribe` step then, i.e. the theorems would not cover it -/
+theorem c14_d27_not_covered :
+    step { G with subscribeSignalsWhenPaused := false } (runActs G (S.init 1) [.pauseCall]) .subscribe = none := by
+  decide
+
+/-- non-vacuity: one worker, pause, a second worker subscribes while paused and is stopped too, resume wakes both -/
+example :
+    let s := runActs G (S.init 1) [.pauseCall, .pauseSend 0, .takeToken 0, .subscribe, .takeToken 1, .resumeCall,
+      .resumeRecv 0 0, .resumeRecv 0 1, .resumeFinish 0]
+    s.n = 2 ∧ s.pendingCalls = 0 ∧ s.paused = false ∧ (s.sub 0).st = .running ∧ (s.sub 1).st = .running := by
   decide
 
 /-- non-vacuity: a reachable history with two workers, a swallowed second pause and an unmatched resume -/
